@@ -56,6 +56,17 @@ func (s *symFn) emissions() []emission {
 			switch x := in.(type) {
 			case *ssa.Store:
 				v := s.val(x.Val)
+				if g, _ := globalOfAddr(x.Addr); g != nil && s.p.Own[g.Pkg.Pkg] && !(v.Op == "append" && len(v.Kids) >= 2) {
+					// assignment of (a field of) a package variable
+					name := "globalstore:" + s.p.GlobalKey(g)
+					if fa, ok := x.Addr.(*ssa.FieldAddr); ok {
+						n, _ := fieldOf(fa.X.Type(), fa.Field)
+						name += "." + n
+					}
+					el := &Sym{Op: "struct", Name: "assign", Fields: []string{"value"}, Kids: []*Sym{v}}
+					out = append(out, emission{target: name, elem: el, cond: s.pathCond(b), block: b, pos: s.p.InstrPos(in), sf: s})
+					continue
+				}
 				if v.Op != "append" || len(v.Kids) < 2 {
 					continue
 				}
@@ -86,6 +97,8 @@ func (s *symFn) targetName(addr ssa.Value) string {
 		}
 	case *ssa.Global:
 		return "global:" + s.p.GlobalKey(a)
+	case *ssa.FreeVar:
+		return "free:" + a.Name()
 	case *ssa.FieldAddr:
 		n, _ := fieldOf(a.X.Type(), a.Field)
 		if g := loadedGlobal(a.X); g != nil {
